@@ -20,7 +20,7 @@ import tempfile
 from ..common import NPROC, VERIF, Ctx, cnat
 
 PRE = ("From Coq Require Import String Ascii.\nFrom QV.lib Require Import Prelude.\n"
-       "From QV.model Require Import C08_Model C08_Model_Ext.\n")
+       "From QV.model Require Import C08_Model C08_Model_Ext C08_Model_Tree.\n")
 
 KIND_NAME = {0: "check", 1: "remove", 2: "mktemp", 3: "mkdir", 4: "w", 5: "zopen", 6: "z", 7: "zclose", 8: "rename"}
 CLASS_CODE = {"absent": 0, "unreadable": 1, "old": 2, "new": 3, "partial": 4}
@@ -64,6 +64,80 @@ def gen_spec(rng, n_attrs, depth=0):
         sub = gen_spec(rng, rng.randint(1, 3), depth + 1) if k == "nested" else None
         spec.append(["a%d_%s" % (i, k), k, rng.randrange(1 << 16), sub])
     return spec
+
+
+# ---- round 4: the directory tree above the target.  chain = the directories between the run directory and the
+# target (outermost first), the first `exist` of them are there before the save, each existing one holds `extras`
+# (nothing: the directory is EMPTY apart from the next element of the chain / the target)
+TREE_CLASSES = ["parent-exists", "parent-missing/grandparent-empty", "parent-missing/grandparent-nonempty",
+                "two-or-more-missing", "nothing-exists"]
+EXTRA_KINDS = ["file", "hidden", "emptydir", "fulldir"]
+DIR_NAMES = ["results", "run1", "out", "data.v2", "a b", ".cache", "nested", "2026-09", "exp", "r"]
+
+
+def gen_layout(rng, cls):
+    if cls == "parent-exists":
+        depth = rng.randint(1, 4)
+        exist = depth
+    elif cls.startswith("parent-missing/"):
+        depth = rng.randint(2, 4)
+        exist = depth - 1
+    elif cls == "two-or-more-missing":
+        depth = rng.randint(3, 5)
+        exist = rng.randint(1, depth - 2)
+    else:
+        depth = rng.randint(1, 4)
+        exist = 0
+    names = rng.sample(DIR_NAMES, depth)
+    chain = ["%s_%d" % (nm, i) for i, nm in enumerate(names)]
+    extras = []
+    for i in range(exist):
+        ex = rng.sample(EXTRA_KINDS, rng.choice([0, 0, 1, 1, 2]))
+        if i == exist - 1:
+            if cls.endswith("grandparent-empty"):
+                ex = []
+            elif cls.endswith("grandparent-nonempty") and not ex:
+                ex = [rng.choice(EXTRA_KINDS)]
+            if exist == depth and rng.random() < 0.4:
+                ex = ex + ["bak"]
+        extras.append(ex)
+    return {"chain": chain, "exist": exist, "extras": extras, "class": cls}
+
+
+def layout_codes(lay):
+    """per directory of the chain: 0 missing | 1 there and empty | 2 there, holding other things (the model's view)"""
+    return [0 if i >= lay["exist"] else (2 if lay["extras"][i] else 1) for i in range(len(lay["chain"]))]
+
+
+def tree_jobs(ctx, r):
+    jobs = []
+    cfgs = [(s, m) for s in ("dir", "zip") for m in ("w", "o")]
+    rounds = ctx.budget(1, 6)
+    i = 0
+    for rd in range(rounds):
+        for cls in TREE_CLASSES:
+            for (s, m) in cfgs:
+                lay = gen_layout(r, cls)
+                pre = "none"
+                if lay["exist"] == len(lay["chain"]):
+                    pre = ["none", "olddir", "oldzip", "other", "none"][(i + rd) % 5]
+                natural = (i + rd) % 3 == 2
+                i += 1
+                if natural:
+                    n_attrs = r.randint(2, 4)
+                    spec = gen_spec(r, n_attrs)
+                    pos = r.randint(0, n_attrs)
+                    bad = BAD_KINDS[(i + pos) % len(BAD_KINDS)]
+                    sp = spec[:pos] + [["bad%d_%s" % (pos, bad), bad, 0, None]] + spec[pos:]
+                    jobs.append({"kind": "natural", "spec": sp, "old_spec": gen_spec(r, 2), "store": s, "mode": m,
+                                 "pre": pre, "bad_pos": pos, "bad_kind": bad, "graph": 7000 + i, "path_form": "exact",
+                                 "layout": lay})
+                else:
+                    spec = SMALL_SPEC if ctx.quick else gen_spec(r, r.randint(1, 3))
+                    jobs.append({"kind": "enum", "spec": spec, "old_spec": gen_spec(r, 2), "store": s, "mode": m,
+                                 "pre": pre, "phase": r.randrange(6), "graph": 7000 + i,
+                                 "path_form": ["exact", "auto", "pathlib"][i % 3], "layout": lay})
+    return jobs
 
 
 def corpus_jobs():
@@ -181,6 +255,7 @@ def gen_jobs(ctx: Ctx):
             jobs.append({"kind": "names", "spec": SMALL_SPEC[:1 + (i + t) % 2], "old_spec": None, "mode": m, "pre": p,
                          "phase": i + t, "graph": 6000 + i, "path_form": "exact", "n_positions": ctx.budget(3, 6),
                          "naming": {"raw": nm, "store_arg": a, "as_path": ap, "decoy": [None, "file", "dir"][(i + t) % 3]}})
+    jobs += tree_jobs(ctx, r)
     for i, j in enumerate(jobs):
         j["id"] = i
     return jobs
@@ -281,7 +356,7 @@ def pre_entry(pre):
 def eff_pre(job):
     """what the target holds as far as the model is concerned (a names job whose resolved target lies in a
     directory that does not exist has no pre-existing target)"""
-    if job["kind"] == "names" and parent_missing(job):
+    if (job["kind"] == "names" or job.get("layout")) and parent_missing(job):
         return "none"
     return job["pre"]
 
@@ -290,10 +365,14 @@ def target_rel(job):
     if job["kind"] == "names":
         return os.path.normpath(job["naming"]["resolved"])
     base = "obj.zip" if job["store"] == "zip" else "obj"
+    if job.get("layout"):
+        return os.path.join(*(job["layout"]["chain"] + [base]))
     return os.path.join("nodir", "sub", base) if job["pre"] == "noparent" else base
 
 
 def parent_missing(job):
+    if job.get("layout"):
+        return job["layout"]["exist"] < len(job["layout"]["chain"])
     d = os.path.dirname(target_rel(job))
     return d not in ("", "x")                  # the run directory holds the directories x/ and sibdir/ only
 
@@ -352,23 +431,32 @@ def scen_expr(fixed, store, mode, pre, n, nz):
                                        "MW" if mode == "w" else "MO", pre_entry(pre), cnat(n), cnat(nz))
 
 
-def align(model_kinds, state_seq, pre):
+def tree_expr(job, n, nz):
+    return "tree_scen %s %s %s [%s] %s %s" % ("SZip" if job["store"] == "zip" else "SDir", "MW" if job["mode"] == "w" else "MO",
+                                              pre_entry(eff_pre(job)), "; ".join("%d%%Z" % c for c in layout_codes(job["layout"])),
+                                              cnat(n), cnat(nz))
+
+
+def align(model_kinds, state_seq, pre, silent=("check",)):
     """positions in the model program of the effects the implementation shows as events: the
     existence check is not an event; RemoveTarget is a no-op (no event) when there is no target.
     Returns (shape_ok, pos) with pos[s] = model index of the s-th state-changing event."""
-    eff = [(i, KIND_NAME[k]) for i, k in enumerate(model_kinds)
-           if KIND_NAME[k] != "check" and not (KIND_NAME[k] == "remove" and pre in PRE_ABSENT)]
+    eff = model_events(model_kinds, pre, silent)
     return [k for _, k in eff] == list(state_seq), [i for i, _ in eff]
 
 
-def model_events(model_kinds, pre):
-    """(index, kind) of the effects of the model's program that the implementation shows as events"""
+TREE_SILENT = ("check", "mkdir")
+
+
+def model_events(model_kinds, pre, silent=("check",)):
+    """(index, kind) of the effects of the model's program that the implementation shows as events (os.makedirs of
+    the directories ABOVE the target is not an event of the tracer: silent for jobs with a layout)"""
     return [(i, KIND_NAME[k]) for i, k in enumerate(model_kinds)
-            if KIND_NAME[k] != "check" and not (KIND_NAME[k] == "remove" and pre in PRE_ABSENT)]
+            if KIND_NAME[k] not in silent and not (KIND_NAME[k] == "remove" and pre in PRE_ABSENT)]
 
 
 def model_row(rows, k):
-    c, unmod, out, frame = rows[min(k, len(rows) - 1)]
+    c, unmod, out, frame = rows[min(k, len(rows) - 1)][:4]
     return {"class": CLASS_NAME[c], "target_unmodified": bool(unmod), "outcome": out, "frame": bool(frame)}
 
 
@@ -385,6 +473,12 @@ def oracle(job, obs, kind, handler_fault=None, judge_partial=True):
         nm = job["naming"]
         where += " save(%s(%r), store=%r) -> target %r" % ("Path" if nm["as_path"] else "str", nm["raw"], nm["store_arg"],
                                                           nm["resolved"])
+    if job.get("layout"):
+        lay = job["layout"]
+        where += " target=%r (before the save: %s)" % (target_rel(job), ", ".join(
+            "%s/ %s" % (os.path.join(*lay["chain"][:i + 1]),
+                        "missing" if i >= lay["exist"] else ("holds " + "+".join(lay["extras"][i]) if lay["extras"][i] else "empty"))
+            for i in range(len(lay["chain"]))))
     if obs["class"] == "partial" and judge_partial:
         bad.append((fault_key(job["store"], kind),
                     "after a failed save (%s; fault %s) load(target) returns a PARTIAL object: %s"
@@ -396,8 +490,19 @@ def oracle(job, obs, kind, handler_fault=None, judge_partial=True):
                     "mode 'w' modified an existing target (%s)" % where))
     unexpected, _, _ = expected_sibling_changes(job, obs, handler_fault)
     if unexpected:
-        bad.append(("other-path-altered/%s" % job["store"],
-                    "save altered paths other than its target (%s): %s" % (where, unexpected[:6])))
+        above = set()
+        d = os.path.dirname(target_rel(job))
+        while d:
+            above.add(d)
+            d = os.path.dirname(d)
+        gone = [c for c in unexpected if c.startswith("removed ") and c.partition(" ")[2] in above]
+        if gone:
+            bad.append(("pre-existing-directory-above-the-target-removed/%s" % job["store"],
+                        "a %s save (outcome %s, fault %s) removed directories that existed before it (%s): %s"
+                        % ("failed" if obs["outcome"] != "done" else "successful", obs["outcome"], kind, where, unexpected[:6])))
+        else:
+            bad.append(("other-path-altered/%s" % job["store"],
+                        "save altered paths other than its target (%s): %s" % (where, unexpected[:6])))
     if obs["temp_leftovers"]:
         bad.append(("temp-left-behind/%s" % job["store"],
                     "save left temporary files behind (%s): %s" % (where, obs["temp_leftovers"][:6])))
@@ -453,6 +558,8 @@ def check_results(ctx: Ctx, jobs, results):
         st, m = "SZip" if job["store"] == "zip" else "SDir", "MW" if job["mode"] == "w" else "MO"
         if job["kind"] == "names":
             exprs.append(call_exprs(job, n, nz))
+        elif job.get("layout"):
+            exprs.append(tree_expr(job, n, nz))
         elif job["kind"] == "hfault":
             exprs.append("(%s, scen_stuck %s %s %s %s %s)" % (std, st, m, pre_entry(job["pre"]), cnat(n), cnat(nz)))
         elif job["kind"] == "rmfault":
@@ -472,8 +579,18 @@ def check_results(ctx: Ctx, jobs, results):
         res = results[job["id"]]
         stuck_rows = rm_rows = None
         kinds_u = rows_u = None
+        silent = TREE_SILENT if job.get("layout") else ("check",)
         if job["kind"] == "names":
             kinds_f, rows_f = val[0], val[1][3]       # (kinds, (store, resolved name, verdict, rows))
+        elif job.get("layout"):
+            kinds_f, rows_f = val                     # rows: (class, unmodified, outcome, frame, created per directory)
+            lay = job["layout"]
+            ctx.dist("layout/%s" % lay["class"])
+            ctx.dist("layout/depth=%d" % len(lay["chain"]))
+            ctx.dist("layout/missing-directories=%d" % (len(lay["chain"]) - lay["exist"]))
+            if lay["exist"]:
+                ctx.dist("layout/deepest-existing-directory=%s" % ("empty" if not lay["extras"][lay["exist"] - 1] else "non-empty"))
+            ctx.dist("layout/store=%s,mode=%s,%s" % (job["store"], job["mode"], job["kind"]))
         elif job["kind"] == "hfault":
             kinds_f, rows_f, (kinds_u, rows_u), stuck_rows = val
         elif job["kind"] == "rmfault":
@@ -483,7 +600,7 @@ def check_results(ctx: Ctx, jobs, results):
         cfg = "%s/%s/%s" % (job["store"], job["mode"], job["pre"])
         base_replay = {"kind": job["kind"], "spec": job["spec"], "old_spec": job.get("old_spec"), "store": job["store"], "path_form": job.get("path_form", "exact"),
                        "mode": job["mode"], "pre": job["pre"], "graph": job.get("graph"), "naming": job.get("naming"),
-                       "valid": job.get("valid", True)}
+                       "valid": job.get("valid", True), "layout": job.get("layout")}
         oracle_failed_here = False
         oc = outcome_code_c if job["kind"] == "names" else outcome_code
         if job["kind"] == "names" and not job.get("valid", True):
@@ -511,7 +628,7 @@ def check_results(ctx: Ctx, jobs, results):
                 ctx.violation("natural-failure-swallowed", "save() returned normally although serialising attribute %s "
                               "raised (%s)" % (job["spec"][job["bad_pos"]][0], cfg), {**base_replay, "impl": nat})
                 continue
-            ok, pos = align(kinds_f, done_state, job["pre"])
+            ok, pos = align(kinds_f, done_state, job["pre"], silent)
             # the completed events must be a prefix of the model's program
             eff_f = [KIND_NAME[k] for i, k in enumerate(kinds_f) if i in pos]
             prefix_ok = eff_f[:len(done_state)] == done_state
@@ -519,6 +636,8 @@ def check_results(ctx: Ctx, jobs, results):
             mr = model_row(rows_f, k)
             same = prefix_ok and (mr["class"], mr["target_unmodified"], mr["outcome"]) == (
                 nat["class"], nat["target_unmodified"], outcome_code(nat["outcome"]))
+            if job.get("layout"):
+                n_dis += check_created(ctx, job, nat, rows_f, k, base_replay, {"natural": True}, oracle_failed_here)
             if not same:
                 n_dis += 1
                 ctx.cov["disagreements_checked"] += 1
@@ -561,7 +680,7 @@ def check_results(ctx: Ctx, jobs, results):
             shape_ok, pos = (sk == []), []
             model_clean = model_row(rows_f, len(kinds_f))
         else:
-            ev = model_events(kinds_f, pre)
+            ev = model_events(kinds_f, pre, silent)
             pos = [i for i, _ in ev]
             # the recorded effects are the model's program (up to and including a primitive that fails by itself)
             shape_ok = list(sk) == [nm_ for i, nm_ in ev if i <= k_end]
@@ -622,6 +741,9 @@ def check_results(ctx: Ctx, jobs, results):
                              clean["target_unmodified"], clean["outcome"], model_clean),
                           {**base_replay, "inject_at": None, "impl": clean, "model": model_clean},
                           found_input=oracle_failed_here)
+        if job.get("layout") and shape_ok:
+            n_dis += check_created(ctx, job, clean, rows_f, len(kinds_f) if blocked else k_end, base_replay,
+                                   {"inject_at": None}, oracle_failed_here)
         if job["kind"] == "names":
             nm = job["naming"]
             ctx.dist("names/outcome=%s" % clean["outcome"])
@@ -691,7 +813,9 @@ def check_results(ctx: Ctx, jobs, results):
                 k = min(k, k_end)
             mr = model_row(rows_f, k)
             if not mr["frame"]:
-                raise RuntimeError("model frame check failed (contradicts C08_frame): %s k=%d" % (cfg, k))
+                raise RuntimeError("model frame check failed (contradicts C08_frame / C08_tree_frame): %s k=%d" % (cfg, k))
+            if job.get("layout"):
+                n_dis += check_created(ctx, job, f, rows_f, k, base_replay, extra, this_failed)
             want_outcome = mr["outcome"]
             if hf == "hclean" and f["hfired"]:
                 # C08_cleanup_faults_agree: target and every path outside the staging area as without the handler
@@ -738,6 +862,36 @@ def check_results(ctx: Ctx, jobs, results):
     if ua:
         ctx.log("the code follows the UNREPAIRED protocol; fault-by-fault agreement with save_prog_unfixed: %d/%d"
                 % (ua["agree"], ua["total"]))
+
+
+def created_dirs(job, obs):
+    """which directories of the chain above the target did the save create (per directory of the chain)"""
+    chain = job["layout"]["chain"]
+    made = {c.partition(" ")[2] for c in obs["siblings_changed"] if c.startswith("created ")}
+    return [os.path.join(*chain[:i + 1]) in made for i in range(len(chain))]
+
+
+def check_created(ctx, job, obs, rows, k, base_replay, extra, oracle_failed):
+    """correspondence: the directories above the target that exist afterwards and did not before are those the
+    model's os.makedirs creates (tree_run); everything pre-existing is judged by the oracle"""
+    want = [bool(b) for b in rows[min(k, len(rows) - 1)][4]]
+    got = created_dirs(job, obs)
+    lay = job["layout"]
+    if any(got):
+        ctx.dist("layout/missing-directories-created-by-%s" % ("a-successful-save" if obs["outcome"] == "done" else "a-failed-save"))
+    # after a FAILED save a created directory may also have been taken away again (the model keeps it: the code has no
+    # clean-up for it; the theorem C08_tree_frame allows both): only a directory the model does not create is a mismatch
+    if got == want or (obs["outcome"] != "done" and all(w or not g for g, w in zip(got, want))):
+        return 0
+    ctx.cov["disagreements_checked"] += 1
+    ctx.violation("created-directories-correspondence",
+                  "target %s (directories %s exist beforehand), store=%s mode=%s, %s: the save created %s of the chain, the "
+                  "model (tree_run: os.makedirs for the directory store, nothing for the zip store, no clean-up) says %s at k=%d"
+                  % (target_rel(job), lay["chain"][:lay["exist"]], job["store"], job["mode"],
+                     "fault before event %s" % extra.get("inject_at") if extra.get("inject_at") is not None else "no injected fault",
+                     got, want, k),
+                  {**base_replay, **extra, "impl": obs, "model_created": want, "k": k}, found_input=oracle_failed)
+    return 1
 
 
 def check_load_classes(ctx: Ctx, job, res):
@@ -794,7 +948,14 @@ def run(ctx: Ctx):
         "handlers (TemporaryDirectory.__exit__ raising at normal exit and on top of a fault at every j; "
         "ZipFile.__exit__ raising during zip assembly); (d) shutil.rmtree of an old directory target interrupted after "
         "r files (outside the quantifier: observed and tied to the model, not judged); (e) load() of one on-disk "
-        "instance of every class of entry of the model")
+        "instance of every class of entry of the model.  Round 4 adds (f) the DIRECTORY TREE above the target: targets 1-5 "
+        "levels below the run directory, a prefix of the chain of directories exists beforehand (classes: parent exists / "
+        "parent missing below an EMPTY grand-parent / below a non-empty one / two or more levels missing / nothing exists), "
+        "every existing directory empty or holding files, hidden files, empty and non-empty sub-directories, a backup next "
+        "to the target; x both stores x both modes x {no target, earlier archive, earlier directory, other file} x every "
+        "fault position or an unserialisable attribute; judged: every path that existed before the save (directories "
+        "included) exists unchanged afterwards, whether the save succeeded or failed; the directories a save creates are "
+        "compared with the model's os.makedirs (tree_run)")
     ctx.assumptions += [
         "a fault is an exception raised between Python-level effects (before a hooked primitive runs), inside a "
         "clean-up handler, or part-way through shutil.rmtree of the old target; OS crashes, fsync and rename "
@@ -808,14 +969,23 @@ def run(ctx: Ctx):
     ]
     ctx.cov["trusted_base"] += [
         "Coq 8.16.1 kernel incl. vm_compute (used to run the model); no native_compute; no axioms",
-        "hand-written model coq/model/C08_Model.v + C08_Model_Ext.v (effects, handlers, load acceptance, path resolution, "
-        "environments of failing handlers / interruptible removal) tied to /repo by the fault enumeration",
+        "hand-written model coq/model/C08_Model.v + C08_Model_Ext.v + C08_Model_Tree.v (effects, handlers, load acceptance, "
+        "path resolution, environments of failing handlers / interruptible removal, os.makedirs of the chain above the "
+        "target) tied to /repo by the fault enumeration and, for the effect order / with-scopes / path versions of "
+        "AutoSerialize.save, by the translator tie (C08_save_effect_program_tie)",
         "harness/impl_C08.py: the list of hooked primitives is the definition of 'write operation' (zarr group/array/"
         "attribute mutators, ZipFile open/write/end-record, tempfile, os/shutil remove/rename/makedirs on the target)",
         "harness/props/C08.py (generators, trace-to-program alignment, classification by canonical form of the loaded "
         "object, table scenario -> model entry / primitive that fails by itself)",
     ]
     ctx.proofs_or_violation()
+    try:  # round 4: the effect program of AutoSerialize.save extracted from the CURRENT source = the protocol of the
+        # theorems (order of the effects, `with` scopes, which path version reaches each site), by theorem
+        from ..c08_tie import run_tie
+        tie_ok = run_tie(ctx)
+    except Exception as e:  # noqa  (fail closed: the tie could not be established)
+        tie_ok = False
+        ctx.broken_obligation = "; ".join(filter(None, [ctx.broken_obligation, "effect-program tie could not run: %r" % (e,)]))
     jobs = gen_jobs(ctx)
     resolve_names(ctx, jobs)
     ctx.log("%d scenarios (%d enumerated, %d natural failures, %d spellings of the target, %d clean-up faults, "
@@ -826,6 +996,51 @@ def run(ctx: Ctx):
     results = run_workers(ctx, jobs)
     ctx.log("implementation runs finished")
     check_results(ctx, jobs, results)
+    if tie_ok:
+        cross_test_translator(ctx, jobs, results)
+
+
+def cross_test_translator(ctx: Ctx, jobs, results):
+    """the translator's own cross-test: the effects of the EXTRACTED program (gen_kinds: interp + expand of the generated
+    token list) for the sizes of recorded traces vs the effects the real save was seen to perform"""
+    picked = []
+    for job in jobs:
+        res = results.get(job["id"]) or {}
+        if job["kind"] != "enum" or "clean" not in res or natural_failure(job) is not None:
+            continue
+        if job["mode"] == "w" and eff_pre(job) not in PRE_ABSENT:
+            continue
+        if res["clean"]["outcome"] != "done" or res["clean"]["state_kinds"].count("w") < 3:
+            continue
+        picked.append(job)
+    picked = picked[:ctx.budget(40, 400)]
+    if not picked:
+        return
+    exprs = []
+    for job in picked:
+        sk = results[job["id"]]["clean"]["state_kinds"]
+        nanc = len(job["layout"]["chain"]) if job.get("layout") else 0
+        exprs.append("gen_kinds %s %s %s 1 %s 2 %s" % ("SZip" if job["store"] == "zip" else "SDir", "MW" if job["mode"] == "w" else "MO",
+                                                       cnat(nanc), cnat(sk.count("w") - 3), cnat(sk.count("z"))))
+    vals = ctx.coq_eval("gen_kinds", PRE + "From GenC08 Require Import Gen_C08 C08_GenProofs.\n", exprs, shard=40,
+                        extra_flags=["-Q", str(ctx.dir), "GenC08"])
+    bad = 0
+    for job, kinds in zip(picked, vals):
+        sk = results[job["id"]]["clean"]["state_kinds"]
+        want = [nm for _, nm in model_events(kinds, eff_pre(job), TREE_SILENT)] if all(k in KIND_NAME for k in kinds) else ["?"]
+        ctx.count(("translator-cross-test", json.dumps(job["spec"]), job["store"], job["mode"], job["pre"], json.dumps(job.get("layout"))),
+                  nontrivial=True)
+        ctx.dist("translator_cross_test/%s" % job["store"])
+        if want != list(sk):
+            bad += 1
+            ctx.violation("effect-program-translator-cross-test",
+                          "the effect program extracted from the source of AutoSerialize.save (%s) differs from the effects the "
+                          "real save performs (%s) for store=%s mode=%s pre-existing=%s: translator bug or an effect outside "
+                          "its grammar" % (compress(want), compress(sk), job["store"], job["mode"], job["pre"]),
+                          {"kind": "translator-cross-test", "spec": job["spec"], "store": job["store"], "mode": job["mode"],
+                           "pre": job["pre"], "extracted": want, "impl_effects": sk}, found_input=False)
+    ctx.cov["effect_program_tie"]["cross_test"] = {"traces": len(picked), "mismatches": bad}
+    ctx.log("translator cross-test: %d recorded traces vs the extracted program, %d mismatches" % (len(picked), bad))
 
 
 def replay(ctx: Ctx, path):
@@ -844,7 +1059,7 @@ def replay(ctx: Ctx, path):
             bad += not ok
             print("%-45s %-28s load(): %-22s load_model: %s %s" % (label, entry, got, "object" if want == 1 else "error", "" if ok else "  <-- differs"))
         return 1 if bad else 0
-    if "spec" not in rp:
+    if "spec" not in rp or rp.get("kind") == "translator-cross-test":
         print("replay names a proof obligation / correspondence batch: re-run ./check C08")
         print(rp.get("what"))
         return 0
@@ -854,7 +1069,7 @@ def replay(ctx: Ctx, path):
            "spec": rp["spec"], "old_spec": rp.get("old_spec"), "store": rp["store"], "path_form": rp.get("path_form", "exact"), "mode": rp["mode"], "pre": rp["pre"],
            "inject_at": rp.get("inject_at"), "exc": rp.get("exc") or "os", "naming": rp.get("naming"), "valid": rp.get("valid", True),
            "handler_fault": rp.get("handler_fault"), "inside_remove": rp.get("inside_remove"), "imm_root": str(ctx.dir / "imm"),
-           "n_positions": 6}
+           "n_positions": 6, "layout": rp.get("layout")}
     scratch = tempfile.mkdtemp(prefix="verif_c08_replay_")
     try:
         res = I.run_job(job, scratch)
